@@ -8,8 +8,7 @@
     * a new record and the reader's initial value are in sync (`init_sync`)
     * one frame (`frame_sound`), all frames with restarts (`frames_sound`)
 -/
-import Stef.Proofs.ApiWrite
-import Stef.Proofs.ApiCopy
+import Stef.Proofs.ApiWriteLax
 import Stef.Proofs.ApiWriteVis
 
 set_option linter.unusedSimpArgs false
@@ -23,7 +22,7 @@ open Stef Stef.Spec Stef.SpecEnc
 theorem copy0_struct (E : CopyEnv) (n : String) (m p : Nat) (fr : Bool) (fs : List AS) (src : AS) :
     ∃ m' p' fs', (copy0 E (.struct n m p fr fs) src).1 = .struct n m' p' fr fs' := by
   cases src with
-  | struct n2 m2 p2 fr2 fs2 => simp only [copy0]; exact ⟨_, _, _, rfl⟩
+  | struct n2 m2 p2 fr2 fs2 => simp only [copy0]; split <;> exact ⟨_, _, _, rfl⟩
   | oneof n2 t2 as2 => simp only [copy0]; exact ⟨_, _, _, rfl⟩
   | arr e es hid => simp only [copy0]; exact ⟨_, _, _, rfl⟩
   | mmap n2 ps hid k v ml => simp only [copy0]; exact ⟨_, _, _, rfl⟩
@@ -361,19 +360,11 @@ theorem writeNode_mono (C : Ctx) (f f' : Nat) (hf : f ≤ f') (env : List (Strin
 
 /-! ## a new record -/
 
-def fieldA (C : Ctx) (fuel : Nat) (fd : Field) : AS :=
-  if isPrimTy fd.ty then initAS C fuel fd.ty
-  else if C.isPtrTy fd.ty && fd.optional then .nil
-  else initAS C fuel fd.ty
-
 def fieldS (σ : Schema) (fuel : Nat) (fd : Field) : St :=
   match fd.optional, fd.ty with
   | true, .ref _ => .oneof 0 none
   | true, .arr _ => .arr []
   | _, _ => initSt σ fuel fd.ty
-
-theorem fieldA_req (C : Ctx) (fuel : Nat) (fd : Field) (h : fd.optional = false) : fieldA C fuel fd = initAS C fuel fd.ty := by
-  unfold fieldA; simp [h]
 
 theorem fieldS_req (σ : Schema) (fuel : Nat) (fd : Field) (h : fd.optional = false) : fieldS σ fuel fd = initSt σ fuel fd.ty := by
   unfold fieldS; rw [h]
@@ -420,57 +411,21 @@ def ShowsAll (C : Ctx) : List AS → List St → Prop
   | w :: ws, r :: rs => Shows C w r ∧ ShowsAll C ws rs
   | _, _ => False
 
-/-- no call of the history goes through `copy<T>` (CopyFrom) -/
-def NoCopy (cs : Calls) : Prop := ∀ c ∈ cs, c.2.isCopy = false
-
-def noCopyB (cs : Calls) : Bool := cs.all (fun c => !c.2.isCopy)
-
-theorem noCopy_of_b (cs : Calls) (h : noCopyB cs = true) : NoCopy cs := by
-  intro c hc
-  simp only [noCopyB, List.all_eq_true] at h
-  simpa using h c hc
-
-def noCopyFramesB (frames : List (Nat × List Calls)) : Bool := frames.all (fun f => f.2.all noCopyB)
-
-theorem noCopyFrames_of_b (frames : List (Nat × List Calls)) (h : noCopyFramesB frames = true) :
-    ∀ f ∈ frames, ∀ cs ∈ f.2, NoCopy cs := by
-  intro f hf cs hcs
-  simp only [noCopyFramesB, List.all_eq_true] at h
-  exact noCopy_of_b cs (h f hf cs hcs)
-
-/-- every call of the history is covered by the preservation proof (`OpOk`): it is not a CopyFrom, or
-    the schema has no dictionary struct -/
-def Covered (C : Ctx) (cs : Calls) : Prop := ∀ c ∈ cs, OpOk C c.2
-
-theorem covered_of_noCopy (C : Ctx) (cs : Calls) (h : NoCopy cs) : Covered C cs := fun c hc => Or.inl (h c hc)
-
-theorem covered_of_noDict (C : Ctx) (h : C.NoDict) (cs : Calls) : Covered C cs := fun _ _ => Or.inr h
-
-def coveredFramesB (C : Ctx) (frames : List (Nat × List Calls)) : Bool := C.noDictB || noCopyFramesB frames
-
-theorem coveredFrames_of_b (C : Ctx) (frames : List (Nat × List Calls)) (h : coveredFramesB C frames = true) :
-    ∀ f ∈ frames, ∀ cs ∈ f.2, Covered C cs := by
-  intro f hf cs hcs
-  simp only [coveredFramesB, Bool.or_eq_true] at h
-  rcases h with h | h
-  · exact covered_of_noDict C (C.noDict_of_b h) cs
-  · exact covered_of_noCopy C cs (noCopyFrames_of_b frames h f hf cs hcs)
-
 theorem applyCalls_snd (C : Ctx) : ∀ (cs : Calls) (n : String) (m p : Nat) (fr : Bool) (fs : List AS) (w' : AS) (R : Option St),
-    Covered C cs → C.isDictName n = false → applyCalls C cs (.struct n m p fr fs) = .ok w' → Snd C (.struct n m p fr fs) R →
+    C.isDictName n = false → applyCalls C cs (.struct n m p fr fs) = .ok w' → Snd C (.struct n m p fr fs) R →
     (∃ m' p' fs', w' = .struct n m' p' fr fs') ∧ Snd C w' R
-  | [], n, m, p, fr, fs, w', R, _, _, h, hs => by
+  | [], n, m, p, fr, fs, w', R, _, h, hs => by
     simp only [applyCalls, Except.ok.injEq] at h
     subst h
     exact ⟨⟨_, _, _, rfl⟩, hs⟩
-  | (path, op) :: rest, n, m, p, fr, fs, w', R, hnc, hnd, h, hs => by
+  | (path, op) :: rest, n, m, p, fr, fs, w', R, hnd, h, hs => by
     simp only [applyCalls] at h
     split at h
     · simp at h
     · rename_i w1 hc
       obtain ⟨m1, p1, fs1, rfl⟩ := call_struct C path op n m p fr fs w1 hc
-      have hs1 := call_snd' C path op (hnc (path, op) (by simp)) _ _ R (by simpa [Ctx.isDictNode] using hnd) hc hs
-      exact applyCalls_snd C rest n m1 p1 fr fs1 w' R (fun c hc => hnc c (by simp [hc])) hnd h hs1
+      have hs1 := call_snd C path op _ _ R (by simpa [Ctx.isDictNode] using hnd) hc hs
+      exact applyCalls_snd C rest n m1 p1 fr fs1 w' R hnd h hs1
 
 theorem writeNode_struct_root (C : Ctx) (fuel : Nat) (col : Nat) (name : String) (dict : Option String) (kept oc : Nat)
     (fields : List (Bool × Node)) (w : AS) (s : WSt) (mk : Mk) (w' : AS) (s' : WSt)
@@ -537,13 +492,12 @@ theorem frame_sound (C : Ctx) (col : Nat) (name : String) (dict : Option String)
     (hroot : NodeOk C (.struct col name dict kept oc fields)) (hnd : C.isDictName name = false) :
     ∀ (recs : List Calls) (fuel m p : Nat) (fr : Bool) (fs : List AS) (s : WSt) (R : St) (ds : DS)
       (rm : List (St × Mk)) (ws : List AS) (W' : AS) (s' : WSt) (evs : List Ev) (ds' : DS) (effs : List St),
-    (∀ cs ∈ recs, Covered C cs) →
     runFrame C (.struct col name dict kept oc fields) recs (.struct name m p fr fs) s = some (rm, ws, W', s') →
     encodeRecords C.σ (.struct col name dict kept oc fields) fuel rm R ds = some (evs, ds', effs) →
     Snd C (.struct name m p fr fs) (some R) → DictOk C s.wd ds.tdict →
     ShowsAll C ws effs ∧ (∃ m' p' fr' fs', W' = .struct name m' p' fr' fs') ∧
       Snd C W' (some (effs.getLast?.getD R)) ∧ DictOk C s'.wd ds'.tdict
-  | [], fuel, m, p, fr, fs, s, R, ds, rm, ws, W', s', evs, ds', effs, _, hr, he, hs, hd => by
+  | [], fuel, m, p, fr, fs, s, R, ds, rm, ws, W', s', evs, ds', effs, hr, he, hs, hd => by
     simp only [runFrame, Option.some.injEq, Prod.mk.injEq] at hr
     obtain ⟨rfl, rfl, rfl, rfl⟩ := hr
     cases fuel with
@@ -552,12 +506,12 @@ theorem frame_sound (C : Ctx) (col : Nat) (name : String) (dict : Option String)
       simp only [encodeRecords, Option.some.injEq, Prod.mk.injEq] at he
       obtain ⟨_, rfl, rfl⟩ := he
       exact ⟨by simp [ShowsAll], ⟨_, _, _, _, rfl⟩, by simpa using hs, hd⟩
-  | cs :: rest, fuel, m, p, fr, fs, s, R, ds, rm, ws, W', s', evs, ds', effs, hnc, hr, he, hs, hd => by
+  | cs :: rest, fuel, m, p, fr, fs, s, R, ds, rm, ws, W', s', evs, ds', effs, hr, he, hs, hd => by
     simp only [runFrame] at hr
     split at hr
     · simp at hr
     · rename_i w1 hcalls
-      obtain ⟨⟨m1, p1, fs1, rfl⟩, hs1⟩ := applyCalls_snd C cs name m p fr fs w1 (some R) (hnc cs (by simp)) hnd hcalls hs
+      obtain ⟨⟨m1, p1, fs1, rfl⟩, hs1⟩ := applyCalls_snd C cs name m p fr fs w1 (some R) hnd hcalls hs
       split at hr
       · simp at hr
       · rename_i new mk w2 s2 hwrite
@@ -589,9 +543,10 @@ theorem frame_sound (C : Ctx) (col : Nat) (name : String) (dict : Option String)
                   obtain ⟨a1, a2, a3⟩ := writeNode_sound C _ [] _ _ s mk0 w20 s20 (some R) R ds e1 ds1 v hwn' hen
                     (compat_some R) hs1 hroot (envOk_nil C) hd
                   obtain ⟨m2, p2, fr2, fs2, rfl⟩ := writeNode_struct_root C _ col name dict kept oc fields _ s mk0 w20 s20 hwn
-                  have hs2 := snd_of_sync C _ v a1 a2
+                  have huc := writeNode_uc C _ [] _ _ s mk0 _ s20 (some R) hwn' hs1 hroot (envOk_nil C) a2
+                  have hs2 := snd_of_sync C false _ v a1 a2 huc
                   obtain ⟨b1, b2, b3, b4⟩ := frame_sound C col name dict kept oc fields hroot hnd rest fuel m2 p2 fr2 fs2 s20 v ds1
-                    recs2 ws2 w3 s3 e2 ds2 vs (fun c hc => hnc c (by simp [hc])) hrest hen2 hs2 a3
+                    recs2 ws2 w3 s3 e2 ds2 vs hrest hen2 hs2 a3
                   refine ⟨by simp only [ShowsAll]; exact ⟨a1, b1⟩, b2, ?_, b4⟩
                   rw [getLast?_cons_getD]
                   exact b3
@@ -626,13 +581,12 @@ theorem frames_sound (C : Ctx) (col : Nat) (name : String) (dict : Option String
     ∀ (frames : List (Nat × List Calls)) (ins : List FrameIn) (m p : Nat) (fr : Bool) (fs : List AS) (s : WSt) (R : St) (ds : DS)
       (ms : List (Nat × List (St × Mk))) (wss : List (List AS)) (W' : AS) (s' : WSt) (evss : List (List Ev)) (ds' : DS)
       (effss : List (List St)),
-    (∀ f ∈ frames, ∀ cs ∈ f.2, Covered C cs) →
     runFrames C (.struct col name dict kept oc fields) frames (.struct name m p fr fs) s = some (ms, wss, W', s') →
     ins.map (fun f => (f.flags, f.recs)) = ms →
     encodeFrames C.σ (.struct col name dict kept oc fields) ins R ds = some (evss, ds', effss) →
     Snd C (.struct name m p fr fs) (some R) → DictOk C s.wd ds.tdict →
     ShowsAll C wss.flatten effss.flatten
-  | [], ins, m, p, fr, fs, s, R, ds, ms, wss, W', s', evss, ds', effss, _, hr, hins, he, _, _ => by
+  | [], ins, m, p, fr, fs, s, R, ds, ms, wss, W', s', evss, ds', effss, hr, hins, he, _, _ => by
     simp only [runFrames, Option.some.injEq, Prod.mk.injEq] at hr
     obtain ⟨rfl, rfl, rfl, rfl⟩ := hr
     have : ins = [] := by simpa using hins
@@ -640,7 +594,7 @@ theorem frames_sound (C : Ctx) (col : Nat) (name : String) (dict : Option String
     simp only [encodeFrames, Option.some.injEq, Prod.mk.injEq] at he
     obtain ⟨_, _, rfl⟩ := he
     simp [ShowsAll]
-  | (flags, recs) :: rest, ins, m, p, fr, fs, s, R, ds, ms, wss, W', s', evss, ds', effss, hnc, hr, hins, he, hs, hd => by
+  | (flags, recs) :: rest, ins, m, p, fr, fs, s, R, ds, ms, wss, W', s', evss, ds', effss, hr, hins, he, hs, hd => by
     simp only [runFrames] at hr
     split at hr
     · simp at hr
@@ -666,10 +620,10 @@ theorem frames_sound (C : Ctx) (col : Nat) (name : String) (dict : Option String
               obtain ⟨_, _, rfl⟩ := he
               rw [hfl, hrecs] at henc
               obtain ⟨b1, ⟨m1, p1, fr1, fs1, rfl⟩, b3, b4⟩ := frame_sound C col name dict kept oc fields hroot hnd recs i0.fuel m p fr fs
-                (restart _ flags s) R (resetFor flags ds) rm ws w1 s1 evs ds1 effs (hnc (flags, recs) (by simp)) hframe henc hs
+                (restart _ flags s) R (resetFor flags ds) rm ws w1 s1 evs ds1 effs hframe henc hs
                 (dictOk_restart C _ flags s ds hd)
               have ih := frames_sound C col name dict kept oc fields hroot hnd rest ins m1 p1 fr1 fs1 s1 (effs.getLast?.getD R) ds1
-                fs2 wss2 w2 s2 evss2 ds2 effss2 (fun f hf => hnc f (by simp [hf])) hrest hins' henc2 b3 b4
+                fs2 wss2 w2 s2 evss2 ds2 effss2 hrest hins' henc2 b3 b4
               simp only [List.flatten_cons]
               exact showsAll_append C ws effs _ _ b1 ih
 
